@@ -19,6 +19,9 @@ pub enum Cfg {
 pub enum Op {
     Build { batch: u32, value: &'static str, with_param: bool },
     Exit(usize),
+    /// isolation: re-load the rules with every threshold lowered by one more (not below 1) while
+    /// entries are in flight - the in-flight count may then already exceed the new threshold
+    Lower,
 }
 
 const RES: &str = "c05-res";
@@ -37,11 +40,13 @@ pub struct C05 {
     not_applied: u64,
     freed_reuse: u64,
     just_exited: bool,
+    lowered: u32,
+    over_cap_after_lowering: u64,
 }
 
 impl C05 {
     pub fn new(cfg: &Cfg) -> Self {
-        C05 { cfg: cfg.clone(), open: vec![], admits: 0, rejects: 0, ambiguous: 0, not_applied: 0, freed_reuse: 0, just_exited: false }
+        C05 { cfg: cfg.clone(), open: vec![], admits: 0, rejects: 0, ambiguous: 0, not_applied: 0, freed_reuse: 0, just_exited: false, lowered: 0, over_cap_after_lowering: 0 }
     }
     fn inflight(&self) -> u32 {
         self.open.len() as u32
@@ -80,6 +85,17 @@ impl C05 {
     }
 }
 
+impl C05 {
+    fn eff(&self, t: u32) -> u32 {
+        t.saturating_sub(self.lowered).max(1)
+    }
+    fn load_isolation(&self) {
+        if let Cfg::Isolation { thresholds } = &self.cfg {
+            isolation::load_rules(thresholds.iter().enumerate().map(|(i, t)| Arc::new(isolation::Rule { id: format!("i{}", i), resource: RES.into(), threshold: self.eff(*t), ..Default::default() })).collect());
+        }
+    }
+}
+
 impl Subject for C05 {
     type Op = Op;
     fn reset(&mut self) {
@@ -93,8 +109,10 @@ impl Subject for C05 {
         self.not_applied = 0;
         self.freed_reuse = 0;
         self.just_exited = false;
+        self.lowered = 0;
+        self.over_cap_after_lowering = 0;
         match &self.cfg {
-            Cfg::Isolation { thresholds } => isolation::load_rules(thresholds.iter().enumerate().map(|(i, t)| Arc::new(isolation::Rule { id: format!("i{}", i), resource: RES.into(), threshold: *t, ..Default::default() })).collect()),
+            Cfg::Isolation { .. } => self.load_isolation(),
             Cfg::Hotspot { threshold, index, keyed, overrides, capacity } => {
                 hotspot::load_rules(vec![Arc::new(hotspot::Rule {
                     id: "h0".into(),
@@ -131,6 +149,11 @@ impl Subject for C05 {
         for i in 0..self.open.len().min(4) {
             v.push(Op::Exit(i));
         }
+        if let Cfg::Isolation { thresholds } = &self.cfg {
+            if !self.open.is_empty() && self.lowered < 2 && thresholds.iter().any(|t| self.eff(*t) > 1) {
+                v.push(Op::Lower);
+            }
+        }
         v
     }
     fn step(&mut self, op: &Op) -> Result<(), String> {
@@ -140,6 +163,10 @@ impl Subject for C05 {
                 o.e.exit();
                 self.just_exited = true;
             }
+            Op::Lower => {
+                self.lowered += 1;
+                self.load_isolation();
+            }
             Op::Build { batch, value, with_param } => {
                 if self.open.len() >= 4 {
                     return Ok(());
@@ -148,7 +175,12 @@ impl Subject for C05 {
                 let r = build_full(RES, TrafficType::Outbound, *batch, args, att);
                 match &self.cfg {
                     Cfg::Isolation { thresholds } => {
+                        let thresholds: Vec<u32> = thresholds.iter().map(|t| self.eff(*t)).collect();
+                        let thresholds = &thresholds;
                         let cur = self.inflight();
+                        if thresholds.iter().any(|t| cur > *t) {
+                            self.over_cap_after_lowering += 1;
+                        }
                         let misfits: Vec<usize> = thresholds.iter().enumerate().filter(|(_, t)| cur + batch > **t).map(|(i, _)| i).collect();
                         match r {
                             Built::Ok(e) => {
@@ -253,7 +285,7 @@ impl Subject for C05 {
         format!("a{}r{}", self.admits, self.rejects)
     }
     fn counters(&self) -> Vec<(&'static str, u64)> {
-        vec![("ambiguous_by_statement_batch_gt_1", self.ambiguous), ("rule_not_applied_missing_parameter", self.not_applied), ("admitted_right_after_an_exit", self.freed_reuse)]
+        vec![("ambiguous_by_statement_batch_gt_1", self.ambiguous), ("rule_not_applied_missing_parameter", self.not_applied), ("admitted_right_after_an_exit", self.freed_reuse), ("requests_while_in_flight_exceeds_a_lowered_threshold", self.over_cap_after_lowering)]
     }
 }
 
